@@ -33,7 +33,8 @@ def check(ctx):
     ctx.rule = ("all 2^11 subsets of the carried fields (flags, rate, channel, signal, TX power, RX flags, TX flags, RTS retries, data retries, MCS, timestamp), each with zero / all-ones / boundary / random values "
                 "(exhaustive over subsets): libwifi_create_radiotap into an exact 128-byte block, then libwifi_parse_radiotap_info on the result; compared with the model, with the Spec encoder "
                 "(version 0, length = bytes produced, present word, fields little-endian at aligned offsets in bit order) and with the supplied values; distinct = (op, output); "
-                "classification invariance under a generated prefix is exercised in C02's suites")
+                "classification invariance: headers produced by the real generator for sampled subsets are prepended to frames of every header kind (management ordered / unordered, control, data, QoS data, extension) at lengths around "
+                "the header length (h-18 .. h+1, h+30), an FCS appended when the flags announce one; the classification with the prefix must equal the classification of the bare frame (length, header length, header, body, QoS / ordered flags, data extraction)")
     r = fw.prepare(ctx, MODULE)
     if r is None:
         return
@@ -49,9 +50,65 @@ def check(ctx):
         for mode in ("zero", "ones", "boundary", "random") + (("random",) * 4 if ctx.tier == "thorough" else ()):
             lines.append(gen_line(m, mode, rnd))
     ctx.coverage["exhaustive"] = True
-    fw.run_suite(ctx, exe, "S-rtg/carried-subsets", lines, "radiotap generation")
+    c_outs, _, _ = fw.run_suite(ctx, exe, "S-rtg/carried-subsets", lines, "radiotap generation")
+    # ---- the generated header in front of a frame does not change how the frame is classified
+    import re
+    import zlib
+    hdrs = []
+    for l, c in zip(lines, c_outs):
+        m = re.search(r"hdr=([0-9a-f]+)", c or "")
+        if m:
+            h = bytes.fromhex(m.group(1))
+            pres = int.from_bytes(h[4:8], "little") if len(h) >= 8 else 0
+            fcs = bool(pres & 2) and len(h) > 8 and bool(h[8] & 0x10)          # FLAGS is the first field when present (alignment 1)
+            if pres & 1:
+                continue                                                   # TSFT in front of FLAGS is never generated (not carried)
+            hdrs.append((h, fcs))
+    hdrs = rnd.sample(hdrs, min(len(hdrs), 400 if ctx.tier == "quick" else 4000))
+    pairs = []
+    for h, fcs in hdrs:
+        fc0, fc1 = rnd.choice([(0x80, 0x80), (0x80, 0x00), (0x50, 0x80), (0xc0, 0x80), (0xa0, 0x80), (0xb4, 0x00), (0x08, 0x00), (0x88, 0x00), (0xc8, 0x80), (0x0c, 0x00), (rnd.getrandbits(8), rnd.getrandbits(8))])
+        ty, st = (fc0 >> 2) & 3, fc0 >> 4
+        hl = (28 if fc1 & 0x80 else 24) if ty == 0 else 4 if ty == 1 else (26 if st in (8, 9, 10, 11, 12, 14, 15) else 24)
+        for L in sorted({max(0, hl - 18), max(0, hl - 5), max(0, hl - 4), max(0, hl - 1), hl, hl + 1, hl + 30}):
+            fr = (bytes([fc0, fc1]) + bytes(rnd.getrandbits(8) for _ in range(max(0, L - 2))))[:L]
+            tail = (zlib.crc32(fr) & 0xffffffff).to_bytes(4, "little") if fcs else b""
+            pairs.append(("cls 0 " + (fr.hex() or "-"), "cls 1 " + (h + fr + tail).hex()))
+    flat = [x for pr in pairs for x in pr]
+    outs, _, _ = fw.run_suite(ctx, exe, "S-rtg/prefix-classification", flat, "classification behind a generated radiotap header")
+
+    def core(o):
+        if o is None or o.startswith("CRASH"):
+            return o
+        if o.startswith("err"):
+            return "err"
+        o = re.sub(r"flags=(\d+)", lambda m: "flags=%d" % (int(m.group(1)) & 6), o)      # QoS and ordered bits only
+        return re.sub(r" rt=\S+", "", o)
+    bad = 0
+    for (l0, l1), i in zip(pairs, range(0, len(flat), 2)):
+        a, b = core(outs[i]), core(outs[i + 1])
+        if a != b:
+            bad += 1
+            if bad <= 3:
+                ctx.violation("S-rtg/prefix:" + l1, "a frame is classified differently behind its generated radiotap header: `%s` gives %s but `%s` gives %s" % (fw.clip(l0, 120), fw.clip(outs[i], 160), fw.clip(l1, 160), fw.clip(outs[i + 1], 160)),
+                              {"kind": "pair", "bare": l0, "prefixed": l1, "observed": outs[i + 1], "expected": outs[i]})
+    ctx.oblige("spec-on-impl", "classification with the generated prefix = classification of the bare frame on %d pairs" % len(pairs), bad == 0, "%d differing" % bad)
     fw.conclude(ctx, broken)
 
 
 def replay(rp):
+    if rp.get("kind") == "pair":
+        import diffrun
+        import re
+        exe, err = diffrun.build_harness("asan")
+        co, cr = diffrun.run_harness_all(exe, [rp["bare"], rp["prefixed"]])
+
+        def core(o):
+            if o is None or o.startswith("CRASH"):
+                return o
+            if o.startswith("err"):
+                return "err"
+            o = re.sub(r"flags=(\d+)", lambda m: "flags=%d" % (int(m.group(1)) & 6), o)
+            return re.sub(r" rt=\S+", "", o)
+        return core(co[0]) == core(co[1]), "%s -> %s | %s -> %s" % (rp["bare"][:80], co[0], rp["prefixed"][:80], co[1])
     return fw.replay_line(rp)
